@@ -51,6 +51,47 @@ for d in sorted(glob.glob(V + "/seeded/*")):
     res = "; ".join(fmt(k, v) for k, v in cb.items())
     out.append("| %s | %s | %s | %s |" % (os.path.basename(d), m.get("property"), (m.get("summary", "")[:300] + " / needs: " + m.get("needs_to_manifest", "")[:200]).replace("|", "/").replace("\n", " "), res))
 out.append("")
+# ---------------------------------------------------------------- 11.6 translator ties
+import subprocess, sys
+sys.path.insert(0, V + "/harness")
+import common
+out.append("### 11.6 Translator ties: what is regenerated from the source on every run\n")
+out.append("**Function translator** (`harness/translate_fn.py`, subset and meaning in `docs/fn_translator.md`; released groups from "
+           "`harness/released.json`; full per-function table: `harness/translate_fn.py --table`):\n")
+out.append("| Group | spec file | regenerated slices | bridge theorems | bridge module | properties |")
+out.append("|---|---|---|---|---|---|")
+nf = nt = 0
+for m in common.fn_spec_modules():
+    out.append("| %s | harness/fnspecs/%s.py | %d | %d | `%s` | %s |" % (
+        m.GROUP, m.__name__.replace("fnspecs_", ""), len(m.SPECS), len(m.BRIDGE["theorems"]), m.BRIDGE["module"].replace("NfcVerif.", ""),
+        ", ".join(m.BRIDGE["properties"])))
+    nf += len(m.SPECS); nt += len(m.BRIDGE["theorems"])
+out.append("| **total** | | %d | %d | | |" % (nf, nt))
+out.append("")
+import excflow
+out.append("**Exception flow** (`harness/translate_exc.py`; language, semantics and the assumption table in `docs/exc_flow.md`):\n")
+out.append("| Group | module | instance theorems | properties | what is stated |")
+out.append("|---|---|---|---|---|")
+for g, d_ in excflow.GROUPS.items():
+    out.append("| %s | `%s` | %d | %s | %s |" % (g, d_["module"].replace("NfcVerif.", ""), len(d_["theorems"]), ", ".join(d_["properties"]),
+                                              d_.get("what", "").replace("|", "/")[:400]))
+out.append("")
+if common.released().get("monitor"):
+    import monitor
+    out.append("**Monitor discipline** (`harness/translate_mon.py`, `docs/monitor.md`): %s.\n" % "; ".join(
+        "%s: %d obligations" % (k, len(v)) for k, v in monitor.BY_PROPERTY.items()))
+out.append("**Lock discipline** (`harness/translate_lock.py`, C15) and **constant tables** (`harness/translate_tables.py`) as in 11.1.\n")
+try:
+    tot = json.loads(subprocess.run([V + "/tools/coverage_map.py"], stdout=subprocess.PIPE, text=True, timeout=600).stdout.strip().split("\n")[-1])
+    out.append("Source coverage of these ties (`tools/coverage_map.py` -> `docs/coverage.md`, counted over the statement lines of all %d "
+               "functions of `src/nfc`, %d lines): %d functions have slices under the function translator (%d lines, %.0f %%), %d function "
+               "bodies are in the exception-flow language, %d in the lock language, %d in the monitor language; %d functions (%.0f %%) are "
+               "under at least one translator tie.  Everything else is reached only through the hand-written models and their "
+               "differential ties (11.3) or is not modelled (`clf/transport.py`, `llcp/sec.py`, `__main__.py`).\n" % (
+                   tot["fns"], tot["lines"], tot["fnf"], tot["fn"], 100.0 * tot["fn"] / max(1, tot["lines"]), tot["exc"], tot["lock"],
+                   tot["mon"], tot["anyt"], 100.0 * tot["anyt"] / max(1, tot["fns"])))
+except Exception as e:
+    out.append("(coverage map not available: %r)\n" % e)
 text = "\n".join(out)
 d = open(V + "/DESIGN.md").read()
 B, E = "<!-- ASBUILT:BEGIN -->", "<!-- ASBUILT:END -->"
